@@ -821,7 +821,7 @@ def _num_value(node):
     return node.value
 
 
-def mutate_repr(tape, text: str):
+def mutate_repr(tape, text: str, focus=None):
     """(mutated text, what was done) -- or (None, reason) when the text has nothing to mutate.  1-3 literals
     are changed: ints -> small ints incl. 0 and negatives, floats -> exact small floats, bools flipped,
     None <-> small value, strings -> another short string, sequences of ints reversed / rotated."""
@@ -836,8 +836,13 @@ def mutate_repr(tape, text: str):
         return None, "no-literals"
     done = []
     used = set()
-    for _ in range(1 + tape.weighted([5, 3, 2], "mutate.count")):
-        k = tape.draw(len(sites), "mutate.site")
+    # `focus` (value-sweep workload): literal number focus mod len(sites) is mutated for sure, so that the
+    # 8-24 mutants of one sweep go through the literals of the stored example one after the other
+    picks = [] if focus is None else [focus % len(sites)]
+    extra = tape.weighted([5, 3, 2], "mutate.count") + (1 if focus is None else 0)
+    for _ in range(extra):
+        picks.append(tape.draw(len(sites), "mutate.site"))
+    for k in picks:
         if k in used:
             continue
         used.add(k)
